@@ -19,7 +19,13 @@ def explore_valid(ctx, rep, name, alphabet, keys, N, time_limit, caprange=(0, 9)
         else:
             table = dict(fixed_table)
         ctx.reset(table)
-        toks = make_tokens("t", N, alphabet)
+        if alphabet and isinstance(alphabet[0], list):
+            # template: one alphabet per position (a one-element alphabet is a fixed symbol)
+            toks = []
+            for i, al in enumerate(alphabet):
+                toks += make_tokens("p%d_" % i, 1, al)
+        else:
+            toks = make_tokens("t", N, alphabet)
         r = dech.run_decoder(ctx, TokStr(toks))
         col.count(r[0])
         if r[0] != "ok":
@@ -84,6 +90,12 @@ def run(rep, tier, seed, budget):
         plan += [("rings across fragments", ["[C]", "[Ring1]", "[Ring2]", "[=Ring1]", "."], ["C", "?"], n) for n in (6, 8, 10)]
         plan += [("idx3", ["[C]", "[=C]", "[Ring3]", "[Branch3]", "[=Ring2]", "[Branch2]", "[N]", "[epsilon]"],
                   dech.KEYS_DEC[:2] + ["?"], n) for n in (3, 5, 6)]
+    # ring symbols before, inside and after a branch on the same atom: the same atom pair can be a ring candidate twice
+    # with another ring bond to one of its atoms formed in between (state carried across iterations of the ring loop)
+    RS, RS3 = ["[Ring1]", "[=Ring1]"], ["[Ring1]", "[=Ring1]", "[#Ring1]"]
+    T_RINGS = [["[C]"], ["[C]", "[=C]"], ["[C]"], RS, ["[C]", "[Ring1]"], ["[Branch1]"], ["[Ring2]"], ["[C]"], RS3,
+               ["[C]", "[Ring1]", "[Ring2]"], RS3, ["[C]", "[Ring1]"]]
+    plan.insert(4 if quick else 6, ("rings before/in/after a branch (template)", T_RINGS, ["C", "?"], len(T_RINGS)))
     for tag, alpha, keys, n in plan:
         left = t_end - time.time()
         if left < 5:
